@@ -23,5 +23,7 @@ DropX(e, panics) == CollectDrop(e, panics)
 XEvent(r) ==
     \/ /\ r.ev = "hint" /\ Hint(r) /\ UNCHANGED mem
     \/ /\ r.ev = "poll" /\ Poll /\ UNCHANGED mem
-    \/ /\ r.ev = "poll_ret" /\ PollRet(r) /\ UNCHANGED mem
+    \/ /\ r.ev = "poll_ret"
+       /\ PollRet(IF Anonymous /\ Len(r.some) = 1 THEN [r EXCEPT !.some = <<NewId>>] ELSE r)
+       /\ UNCHANGED mem
 =============================================================================
